@@ -51,13 +51,16 @@ def main():
     # private TMPDIR: two test classes use fixed names under the system temp dir and collide with concurrent runs
     import tempfile as _tf
     tmpd = _tf.mkdtemp(prefix="verif-seed-tmp-", dir="/var/tmp")
-    r = sh("/venv/bin/python -m pytest -q -p no:cacheprovider --timeout=900 --continue-on-collection-errors --junitxml=/var/tmp/seed_junit.xml", wt,
+    junit = f"{tmpd}-junit.xml"
+    r = sh(f"/venv/bin/python -m pytest -q -p no:cacheprovider --timeout=900 --continue-on-collection-errors --junitxml={junit}", wt,
            env={"TMPDIR": tmpd}, timeout=3000)
     import shutil as _sh
     _sh.rmtree(tmpd, ignore_errors=True)
     base = set(json.load(open("/root/.vp/BASELINE.json"))["stable_pass"])
     passed = set()
-    for tc in ET.parse("/var/tmp/seed_junit.xml").iter("testcase"):
+    tree = ET.parse(junit)
+    Path(junit).unlink()
+    for tc in tree.iter("testcase"):
         if not any(c.tag in ("failure", "error", "skipped") for c in tc):
             passed.add(f"{tc.get('classname')}::{tc.get('name')}")
     missing = sorted(base - passed)
